@@ -41,6 +41,10 @@ func vhSnapshot(s *Server, repos []string, digs []digest.Digest, tags []string) 
 	return sb.String()
 }
 
+func vhDescDig(mt string, d digest.Digest) types.Descriptor {
+	return types.Descriptor{MediaType: mt, Digest: d, Size: 2}
+}
+
 // VH_C04_Put: one arbitrary manifest PUT in four worlds.
 func VH_C04_Put() {
 	vhReset()
@@ -92,6 +96,12 @@ func VH_C04_Put() {
 		// the mediaType field is authoritative: a document that declares itself an index
 		// is an index (with no manifests), whatever other fields it carries
 		{"field-says-index-with-image-fields", wrongFieldB, "index", types.MediaTypeOCI1ManifestList, always},
+		// references whose digest can name no content at all: truncated, unregistered
+		// algorithm, empty, upper-case hex (everything else in the document is present in a)
+		{"img-layer-truncated-digest", vhImage(cd, []types.Descriptor{ld, vhDescDig(types.MediaTypeOCI1Layer, ld.Digest[:len(ld.Digest)-4])}, nil, "", nil), "image", types.MediaTypeOCI1Manifest, never},
+		{"img-layer-md5-digest", vhImage(cd, []types.Descriptor{vhDescDig(types.MediaTypeOCI1Layer, "md5:d41d8cd98f00b204e9800998ecf8427e"), ld}, nil, "", nil), "image", types.MediaTypeOCI1Manifest, never},
+		{"img-config-empty-digest", vhImage(vhDescDig(types.MediaTypeOCI1ImageConfig, ""), []types.Descriptor{ld}, nil, "", nil), "image", types.MediaTypeOCI1Manifest, never},
+		{"idx-child-uppercase-digest", vhIndexDoc([]types.Descriptor{vhDesc(types.MediaTypeOCI1Manifest, img1), vhDescDig(types.MediaTypeOCI1Manifest, digest.Digest("sha256:"+strings.ToUpper(digest.Canonical.FromBytes(img1).Encoded())))}, nil, ""), "index", types.MediaTypeOCI1ManifestList, never},
 	}
 	doc := docs[vh.Choice("doc", vh.Param("DOCS", len(docs)))]
 	dBody := digest.Canonical.FromBytes(doc.body)
